@@ -6,17 +6,21 @@
 (* arguments, one list, a list and an argument ... - the specification reduces left to right     *)
 (* whatever the form), with the operands after the call, the lists handed over before and after  *)
 (* the call (the numbers of the operands they hold, by identity) and the encoded outcome.        *)
-EXTENDS Series, Batch
+(* m is the fill method of the call (OpsLaw!OpsMethods), nl the number of operands the first      *)
+(* argument held (sub_ / div_ with a list on either side: OpsLaw!OpsCutOutcomes).                 *)
+EXTENDS OpsLaw, Batch
 
 CellsOf(o) == IF IsScalar(o) THEN {o.v} ELSE IF IsS(o) THEN Range(o.v) ELSE UNION {Range(o.v[j]) : j \in 1..Len(o.v)}
 InDomain(o) == /\ o.op \in BinOps \cup AggOps
                /\ \A i \in 1..Len(o.xs) : IsTs(o.xs[i]) => WellFormed(o.xs[i])
-               /\ o.op \in AggOps \/ ColsPinned(o.op, o.xs, o.cols)
+               /\ o.op \in AggOps \/ OpsColsPinned(o.op, o.xs, o.cols)
+               /\ OpsMethodOK(o.xs, o.m) /\ (o.op \in AggOps => o.m = "none")
                /\ LET multi == SelectSeq(o.xs, IsMulti) IN         \* under "ij" the frames share a column
                   (o.cols = "ij" /\ multi # <<>>) =>
                       Cardinality(CommonCols("ij", [i \in 1..Len(multi) |-> Cols(multi[i])])) >= (IF Len(o.xs) >= 3 /\ Len(multi) >= 2 THEN 2 ELSE 1)
                /\ o.op = "pow" => Len(o.xs) = 2 /\ \A y \in CellsOf(o.xs[2]) : PowDomain(y)
-               /\ o.op \in {"sub", "div", "pow", "gt", "ge", "lt", "le"} => Len(o.xs) = 2
+               /\ o.op \in {"pow", "gt", "ge", "lt", "le"} => Len(o.xs) = 2
+               /\ o.op \in {"sub", "div"} => Len(o.xs) >= 2 /\ o.nl \in 1..(Len(o.xs) - 1) /\ OpsCutDomain(o.op, o.xs)
 \* the first clause on which the observed result g differs from the expected w
 WhyNotOp(w, g) ==
     IF ~(g.k \in {"s", "f", "c"}) THEN "result_kind"
@@ -33,10 +37,12 @@ Verdict(o) ==
     ELSE IF o.lists_after # o.lists THEN "container_changed"     \* a list handed over holds the operands it held, by identity
     ELSE IF ~InDomain(o) THEN "outside_domain"
     ELSE IF o.out.kind = "exc" THEN "raised"
-    ELSE LET want == IF o.op \in AggOps THEN {Agg(o.op, o.xs, o.cols)} ELSE OpOutcomes(o.op, o.xs, o.join, o.cols)
+    ELSE LET want == IF o.op \in AggOps THEN {Agg(o.op, o.xs, o.cols)}
+                     ELSE IF o.op \in {"sub", "div"} /\ Len(o.xs) > 2 THEN OpsCutOutcomes(o.op, o.xs, o.nl, o.join, o.cols)
+                     ELSE OpsOutcomes(o.op, o.xs, o.join, o.cols, o.m)
              got  == o.out.v
          IN  IF \E w \in want : Matches(w, got) THEN ""
-             ELSE WhyNotOp(IF o.op \in AggOps THEN Agg(o.op, o.xs, o.cols) ELSE Reduce(o.op, o.xs, o.join, o.cols), got)
+             ELSE WhyNotOp(IF o.op \in AggOps THEN Agg(o.op, o.xs, o.cols) ELSE OpsReduce(o.op, o.xs, o.join, o.cols, o.m, "row"), got)
 
 Init == BatchInit
 Next == BatchNext(Verdict)
